@@ -2,24 +2,37 @@
 (***************************************************************************)
 (* The bounded graph family of C10 and the load machine.                    *)
 (*                                                                          *)
-(* Family: bipartite incidence patterns of k entry points over n shared     *)
-(* modules (module j is imported by the entry points in the non-empty set   *)
-(* masks[j], a bit mask; patterns up to the order of the modules), each     *)
-(* decorated by a feature variant: side-effect-only shared modules, module  *)
-(* -> module imports and re-exports across the future chunk boundary,       *)
-(* re-export-only entry points, dynamic import() of a non-entry module, of  *)
-(* a module nobody imports statically, of an entry point (from a shared     *)
-(* module and from an entry point), entry points importing / re-exporting   *)
-(* entry points.  Every module declares the same top-level names (id,       *)
-(* helper, v, c, bump): equal names meet in every chunk.                    *)
+(* Family, three parts:                                                     *)
+(*  - incidence: bipartite incidence patterns of k entry points over n      *)
+(*    shared modules (module j is imported by the entry points in the       *)
+(*    non-empty set masks[j], a bit mask; patterns up to the order of the   *)
+(*    modules), each decorated by a feature variant: side-effect-only       *)
+(*    shared modules, module -> module imports and re-exports across the    *)
+(*    future chunk boundary, re-export-only entry points, dynamic import()  *)
+(*    of a non-entry module, of a module nobody imports statically, of an   *)
+(*    entry point (from a shared module and from an entry point), entry     *)
+(*    points importing / re-exporting entry points; and by a naming: every  *)
+(*    module declares the top-level names id, helper, v, c, bump, each      *)
+(*    module with the suffix "", "2" or "3" (equal names meet in every      *)
+(*    chunk, and names that look like the collision renamers' own output).  *)
+(*  - re-export chains (ChainFamily): an entry point re-exports (or its     *)
+(*    code import()s a barrel that re-exports) the bindings of an origin    *)
+(*    module through 1..3 re-export statements of every kind (export *,     *)
+(*    export {x} from, export {x as y} from, import + export, export * as   *)
+(*    ns), the origin living in a shared chunk, in the entry point's own    *)
+(*    chunk or being the other entry point, with and without a default      *)
+(*    export, used or not by the entry point's own code.                    *)
+(*  - name collisions (NameFamily): all modules in one shared chunk that    *)
+(*    exports every binding, in every naming.                               *)
 (*                                                                          *)
-(* Init chooses a graph G, computes L == Compute(G) (Link.tla) and, when    *)
-(* Export is TRUE, prints the CASE record: the graph, the expected chunking *)
-(* and the expected observations.  The machine then loads the user entry    *)
-(* points in any subset and order into one registry (LoadEntry) and fires   *)
-(* pending dynamic imports in any order (FireDyn), in two semantics in lock *)
-(* step: the ES semantics of the source graph and the evaluation of the     *)
-(* computed chunk graph.                                                    *)
+(* Init chooses a graph G; Setup computes L == Compute(G) (Link.tla) and,   *)
+(* when Export is TRUE, prints the CASE record: the graph, the resolved     *)
+(* export table (namespace) of every file, the expected chunking with the   *)
+(* alias tables and the expected observations.  The machine then loads the  *)
+(* user entry points in any subset and order into one registry (LoadEntry)  *)
+(* and fires pending dynamic imports in any order (FireDyn), in two         *)
+(* semantics in lock step: the ES semantics of the source graph and the     *)
+(* evaluation of the computed chunk graph.                                  *)
 (***************************************************************************)
 EXTENDS Link, Json
 
@@ -34,14 +47,14 @@ CONSTANTS Shapes,    \* set of <<k, n>>
           NamePick   \* the name-collision family: 9999 = none, 0 = all of it, n > 0 = k = 2 over 3 modules in every
                      \* naming and a slice (1 of 8) of the rest chosen by n
 
-VARIABLES label, g, L, designFailing,
+VARIABLES label, g, meta, phase, L, designFailing,
           loaded,   \* sequence of user entry points loaded so far
           fired,    \* dynamic import targets already loaded
           evSrc,    \* modules evaluated, ES semantics of the source graph
           evCh,     \* chunks evaluated
           runs,     \* file -> number of times its body ran (chunk semantics)
           bad       \* a body read a binding of a file whose body had not run
-vars == <<label, g, L, designFailing, loaded, fired, evSrc, evCh, runs, bad>>
+vars == <<label, g, meta, phase, L, designFailing, loaded, fired, evSrc, evCh, runs, bad>>
 
 ShapesTiny     == {<<2, 1>>, <<2, 2>>}
 ShapesQuick    == {<<2, 1>>, <<2, 2>>, <<2, 3>>, <<2, 4>>, <<3, 1>>, <<3, 2>>, <<3, 3>>}
@@ -147,10 +160,13 @@ Places == {"shared", "own", "entry"}
 \* origin variants: a = plain names, no default, e1 declares nothing; b = suffix 2, default export, e1 declares
 \* v, c, bump; c = plain names, default export, e1 declares v, c, bump (legal only under star / ns / rename)
 OVariants == {"a", "b", "c"}
+\* dyn: e1 does not re-export the chain but import()s its first barrel (ks[1] is not used: star only), which
+\* makes the barrel an entry point whose exports arrive through the rest of the chain
 ChainParams ==
-  {p \in [ks : KindSeqs, place : Places, used : BOOLEAN, mid : BOOLEAN, ov : OVariants] :
+  {p \in [ks : KindSeqs, place : Places, used : BOOLEAN, mid : BOOLEAN, ov : OVariants, dyn : BOOLEAN] :
      /\ (p.mid => Len(p.ks) >= 2 /\ p.place # "entry")
-     /\ (p.ov = "c" => p.ks[1] \in {"star", "ns", "rename"} /\ ~p.used)}
+     /\ (p.ov = "c" => p.ks[1] \in {"star", "ns", "rename"} /\ ~p.used)
+     /\ (p.dyn => Len(p.ks) >= 2 /\ p.ks[1] = "star" /\ ~p.used /\ ~p.mid /\ p.ov # "c")}
 ChainGraph(p) ==
   LET d      == Len(p.ks) - 1                     \* barrels
       origin == IF p.place = "entry" THEN 2 ELSE 3
@@ -158,7 +174,8 @@ ChainGraph(p) ==
       bar(i) == 4 + i
       hop(i) == IF i > d THEN origin ELSE bar(i)  \* the file the i-th barrel is (i = d + 1: the origin)
       e1     == [MkFile("e1", (IF p.used THEN <<Bind(hop(1))>> ELSE <<>>) \o <<Bind(m2)>>, <<>>, <<>>, p.ov # "a")
-                   EXCEPT !.rx = <<[to |-> hop(1), kind |-> p.ks[1]]>>]
+                   EXCEPT !.rx = IF p.dyn THEN <<>> ELSE <<[to |-> hop(1), kind |-> p.ks[1]]>>,
+                          !.dyn = IF p.dyn THEN <<hop(1)>> ELSE <<>>]
       e2     == MkFile("e2", (IF p.place = "shared" THEN <<Bind(3)>> ELSE <<>>) \o <<Bind(m2)>> \o
                              (IF p.mid THEN <<[to |-> bar(1), bind |-> FALSE]>> ELSE <<>>), <<>>, <<>>, TRUE)
       o      == [MkFile("m1", <<>>, <<>>, <<>>, TRUE) EXCEPT !.sfx = IF p.ov = "b" THEN "2" ELSE "", !.dflt = p.ov # "a"]
@@ -170,17 +187,17 @@ ChainGraph(p) ==
 RECURSIVE JoinStrs(_, _)
 JoinStrs(s, i) == IF i > Len(s) THEN "" ELSE (IF i > 1 THEN "-" ELSE "") \o s[i] \o JoinStrs(s, i + 1)
 ChainLabel(p) == "rx:" \o p.place \o ":" \o JoinStrs(p.ks, 1) \o ":" \o p.ov \o
-                 (IF p.used THEN ":used" ELSE ":unused") \o (IF p.mid THEN ":mid" ELSE "")
+                 (IF p.used THEN ":used" ELSE ":unused") \o (IF p.mid THEN ":mid" ELSE "") \o (IF p.dyn THEN ":dyn" ELSE "")
 KindIx(x) == CASE x = "star" -> 1 [] x = "named" -> 2 [] x = "rename" -> 3 [] x = "imex" -> 4 [] OTHER -> 5
 RECURSIVE KsHash(_, _)
 KsHash(ks, i) == IF i > Len(ks) THEN 0 ELSE (2 * i + 1) * KindIx(ks[i]) + KsHash(ks, i + 1)
 ChainHash(p) == KsHash(p.ks, 1) + (CASE p.place = "shared" -> 0 [] p.place = "own" -> 5 [] OTHER -> 11) +
-                (IF p.used THEN 3 ELSE 0) + (IF p.mid THEN 7 ELSE 0) + (CASE p.ov = "a" -> 0 [] p.ov = "b" -> 13 [] OTHER -> 17)
+                (IF p.used THEN 3 ELSE 0) + (IF p.mid THEN 7 ELSE 0) + (IF p.dyn THEN 9 ELSE 0) + (CASE p.ov = "a" -> 0 [] p.ov = "b" -> 13 [] OTHER -> 17)
 ChainFamily ==
   IF ChainPick = 9999 THEN {}
   ELSE {[label |-> ChainLabel(p), k |-> 2, masks |-> <<>>, variant |-> "rxchain", graph |-> ChainGraph(p)]
           : p \in {q \in ChainParams : /\ (ChainPick = 0 \/ (ChainHash(q) + ChainPick) % ChainDiv = 0)
-                                       /\ (Half = 0 \/ ((ChainHash(q) \div 3) % 2) + 1 = Half)}}
+                                       /\ (Half = 0 \/ ((ChainHash(q) \div ChainDiv) % 2) + 1 = Half)}}
 
 (* the name-collision family: k entry points that all use all of n modules   *)
 (* (one shared chunk exporting every binding), in every naming               *)
@@ -281,9 +298,16 @@ EffectsWith(G, f, rs) ==
   <<Ev(G, "end", f, 0)>>
 Effects(G, f) == EffectsWith(G, f, Reads(G, f))
 \* the effects of its dynamic imports (after the body, in any order)
-AsyncEffects(G, f) ==
-  [i \in 1..Len(G.files[f].dyn) |->
-     LET d == G.files[f].dyn[i] IN Ev(G, "dyn", d, IF G.files[d].exports THEN Val(G, d) ELSE 0 - 1)]
+\* (the importer reads `v` \o sfx of the namespace it receives, if there is such a name, and counts its names)
+DynVal(G, d) ==
+  LET xs == {x \in TableOf(G, d) : x.kind = "v" /\ x.alias = "v" \o G.files[d].sfx}
+  IN IF xs = {} THEN 0 - 1 ELSE Val(G, (CHOOSE x \in xs : TRUE).file)
+RECURSIVE AsyncFrom(_, _, _)
+AsyncFrom(G, f, i) ==
+  IF i > Len(G.files[f].dyn) THEN <<>>
+  ELSE LET d == G.files[f].dyn[i]
+       IN <<Ev(G, "dyn", d, DynVal(G, d)), Ev(G, "dynkeys", d, NKeys(G, d))>> \o AsyncFrom(G, f, i + 1)
+AsyncEffects(G, f) == AsyncFrom(G, f, 1)
 
 Names(G, S) == {G.files[f].name : f \in S}
 IdOf(G, nm) == CHOOSE f \in FileIds(G) : G.files[f].name = nm
@@ -341,17 +365,29 @@ CaseRec(lab, k, masks, variant, G, LL) ==
 
 -----------------------------------------------------------------------------
 (* the load machine *)
+\* Init only chooses the graph; Setup links it (Compute) and exports the CASE record.  (TLC evaluates Init with one
+\* thread and without caching LET values; actions are evaluated by every worker, with caching.)
 Init ==
   \E x \in Family :
      /\ label = x.label
      /\ g = x.graph
-     /\ L = Compute(x.graph)
-     /\ designFailing = Failing(L) \cup (IF UsesAreImportedAndInitialised(L) THEN {} ELSE {"UsesAreImportedAndInitialised"})
-                                   \cup (IF \A f \in FileIds(x.graph) : WellFormedFile(x.graph, f) THEN {} ELSE {"WellFormedGraph"})
+     /\ meta = [k |-> x.k, masks |-> x.masks, variant |-> x.variant]
+     /\ phase = "new"
+     /\ L = <<>>
+     /\ designFailing = {}
      /\ loaded = <<>> /\ fired = {} /\ evSrc = {} /\ evCh = {}
      /\ runs = [f \in FileIds(x.graph) |-> 0]
      /\ bad = FALSE
-     /\ (Export => PrintT(<<"CASE", ToJson(CaseRec(x.label, x.k, x.masks, x.variant, x.graph, L))>>))
+
+Setup ==
+  /\ phase = "new"
+  /\ phase' = "linked"
+  /\ LET LL == Compute(g)
+     IN /\ L' = LL
+        /\ designFailing' = Failing(LL) \cup (IF UsesAreImportedAndInitialised(LL) THEN {} ELSE {"UsesAreImportedAndInitialised"})
+                                       \cup (IF \A f \in FileIds(g) : WellFormedFile(g, f) THEN {} ELSE {"WellFormedGraph"})
+        /\ (Export => PrintT(<<"CASE", ToJson(CaseRec(label, meta.k, meta.masks, meta.variant, g, LL))>>))
+  /\ UNCHANGED <<label, g, meta, loaded, fired, evSrc, evCh, runs, bad>>
 
 Count(s, x) == Cardinality({i \in 1..Len(s) : s[i] = x})
 \* load the entry chunk of e (a user entry point or a dynamic import target) in both semantics
@@ -367,19 +403,21 @@ LoadStep(e) ==
                          /\ runs[u.file] = 0 /\ \A j \in 1..(i - 1) : bodies[j] # u.file)
 
 LoadEntry(e) ==
+  /\ phase = "linked"
   /\ e \in UserEntries(g) \ SeqToSet(loaded)
   /\ loaded' = Append(loaded, e)
   /\ LoadStep(e)
-  /\ UNCHANGED <<label, g, L, designFailing, fired>>
+  /\ UNCHANGED <<label, g, meta, phase, L, designFailing, fired>>
 
 Pending == (UNION {DynTargets(g, f) : f \in evSrc}) \ fired
 FireDyn(t) ==
+  /\ phase = "linked"
   /\ t \in Pending
   /\ fired' = fired \cup {t}
   /\ LoadStep(t)
-  /\ UNCHANGED <<label, g, L, designFailing, loaded>>
+  /\ UNCHANGED <<label, g, meta, phase, L, designFailing, loaded>>
 
-Next == (\E e \in UserEntries(g) : LoadEntry(e)) \/ (\E t \in FileIds(g) : FireDyn(t))
+Next == Setup \/ (\E e \in UserEntries(g) : LoadEntry(e)) \/ (\E t \in FileIds(g) : FireDyn(t))
 Spec == Init /\ [][Next]_vars
 
 -----------------------------------------------------------------------------
